@@ -202,7 +202,9 @@ struct Encoding<std::array<T, Length>, EnableIfIntegral<T>>
     else if (size != Length * sizeof(T))
       return ErrorStatus::InvalidContainerLength;
 
-    return reader->Read(&(*value)[0], &(*value)[Length]);
+    // Use data() instead of indexing: operator[] on a zero-length std::array
+    // is undefined.
+    return reader->Read(value->data(), value->data() + Length);
   }
 };
 
